@@ -328,12 +328,12 @@ theorem svgDoc_lexOk {ν : Nums} (hν : SafeNums ν) (tb nl : Bool) {body : List
   cases nl <;> simp [h1, pieceLexOk] <;> decide
 
 /-- the whole observation of C20 on the rendered document -/
-theorem docMeets_svgDoc {ν : Nums} (hν : SafeNums ν) (tb nl : Bool) (cs : List PyStr) (hcs : AllSafe cs)
+theorem docMeets_svgDoc {ν : Nums} (hν : SafeNums ν) (tb nl : Bool) (cs : List PyStr)
     {body : List Piece} {s : Summary} (hi : Inner body) (hs : Shape body s) :
     docMeets (render (svgDoc ν tb nl (cs.flatMap svgMarker ++ body)))
       ⟨s.circles, s.sectors, s.edgePaths, s.texts⟩ = true := by
   have hin : Inner (cs.flatMap svgMarker ++ body) :=
-    Inner.append (Inner.flatMap_mem _ _ (fun c hc => svgMarker_inner (hcs c hc))) hi
+    Inner.append (Inner.flatMap _ _ (fun c => svgMarker_inner c)) hi
   have hwf := svgDoc_wf hν tb nl hin
   have hlex := svgDoc_lexOk hν tb nl hin
   unfold docMeets
